@@ -1,18 +1,31 @@
 """Registry of checks: which harness runs, with which case splits, serve which property."""
 
 
-def lex_cases(maxn_quick, maxn_thorough, extra=None):
+CHEAP_OPENINGS = (2, 3, 4, 5, 6, 7, 8, 9, 11, 12, 13)   # strings, escapes, comments, numbers, CR, partial BOM, dots
+BLOCK_OPENINGS = (1, 10, 14, 15)                          # inside a block string (expensive: the line split forks)
+
+
+def lex_cases(maxn_quick, maxn_thorough, openings=True):
+    """Plain inputs of n symbolic bytes after the cursor (sizes measured to finish), three
+    resting states, and - hlex.Openings - concrete openings followed by a few symbolic bytes."""
     def f(tier, seed):
         maxn = maxn_quick if tier == "quick" else maxn_thorough
-        cs = []
-        for n in range(0, maxn + 1):
-            c = {"n": n, "p": 0, "r0": 7, "l0": 3, "ls0": 2}
-            if n >= maxn_quick and tier == "thorough" and n > maxn_quick + 1:
-                c["_optional"] = 1
-            cs.append(c)
+        base = {"p": 0, "r0": 7, "l0": 3, "ls0": 2}
+        cs = [dict(base, n=n) for n in range(0, maxn + 1)]
         # resting state at the very beginning of a source, and a cursor in the middle
         cs.append({"n": min(3, maxn), "p": 0, "r0": 0, "l0": 1, "ls0": 0})
         cs.append({"n": min(4, maxn), "p": 2, "r0": 2 + (seed % 5), "l0": 1 + (seed % 7), "ls0": seed % 3})
+        if not openings:
+            return cs
+        for o in CHEAP_OPENINGS:
+            for n in range(0, (4 if tier == "quick" else 5) + 1):
+                cs.append(dict(base, n=n, open=o))
+        for o in BLOCK_OPENINGS:
+            top = 3
+            if tier == "thorough" or o in (1, 15):
+                top = 4            # ~1-2 min each; quick takes the plain block string and the after-CR state
+            for n in range(0, top + 1):
+                cs.append(dict(base, n=n, open=o))
         return cs
     return f
 
@@ -28,14 +41,20 @@ NQ_PREFIX = 12   # len(hparse.QueryPrefixes)
 NS_PREFIX = 20   # len(hparse.SchemaPrefixes)
 NQ_ALPHA = 32    # len(Alphabet(QueryNames, false))
 NS_ALPHA = 41
+NQ_HOLES = 13    # len(hparse.QueryHoles)
+NS_HOLES = 25    # len(hparse.SchemaHoles)
 
 
-def stream_cases(nprefix, nalpha, kq, kpq, kt, kpt, extra=None):
+def stream_cases(nprefix, nalpha, kq, kpq, kt, kpt, extra=None, nholes=0):
     """prefix 0 (free streams) up to k tokens; every other prefix with kp symbolic tokens.
-    The largest free-stream length is split by its first token."""
+    The largest free-stream length is split by its first token. nholes: (opening, closing)
+    templates around a hole of 1..2 (quick) / 1..3 (thorough) symbolic tokens."""
     def f(tier, seed):
         k, kp = (kq, kpq) if tier == "quick" else (kt, kpt)
         cs = []
+        for h in range(nholes):
+            for hk in ((1, 2) if tier == "quick" else (1, 2, 3)):
+                cs.append(dict({"k": hk, "hole": h}, **(extra or {})))
         for i in range(0, k):
             cs.append(dict({"k": i, "prefix": 0}, **(extra or {})))
         for first in range(nalpha + (1 if (extra or {}).get("invalid") else 0)):
@@ -75,6 +94,7 @@ def validate_cases(tier, seed):
     for a1 in range(4):                      # 7: operations, by kind of the first one
         cs.append({"shape": 7, "alt1": a1})
     cs.append({"shape": 10})                 # misspelt names with tied suggestion candidates
+    cs.append({"shape": 11})                 # the same two named fragments meeting twice (exclusive / non-exclusive parents, either order)
     return cs
 
 
@@ -83,7 +103,7 @@ def determinism_cases(tier, seed):
     lighter pieces of each shape; thorough takes every piece of validate_cases."""
     if tier == "thorough":
         return validate_cases(tier, seed)
-    cs = [{"shape": 10}, {"shape": 9}, {"shape": 5}, {"shape": 6}, {"shape": 3}, {"shape": 4}]
+    cs = [{"shape": 10}, {"shape": 11}, {"shape": 9}, {"shape": 5}, {"shape": 6}, {"shape": 3}, {"shape": 4}]
     for a3 in (0, 2, 4):
         cs.append({"shape": 0, "alt3": a3})
     for a1, a3 in ((0, 0), (1, 1), (2, 2), (3, 3), (4, 0)):
@@ -106,35 +126,35 @@ VALIDATE_ASSUME = [
 CHECKS = {
     "C01": {
         "units": [
-            {"pkg": "verifh/hlex", "fn": "StepTotal", "cases": lex_cases(5, 8), "panic_prop": "C01"},
+            {"pkg": "verifh/hlex", "fn": "StepTotal", "cases": lex_cases(5, 7), "panic_prop": "C01"},
             {"pkg": "verifh/hparse", "fn": "QueryTotal", "cases": stream_cases(NQ_PREFIX, NQ_ALPHA, 3, 2, 5, 4, {"invalid": 1}), "panic_prop": "C01"},
             {"pkg": "verifh/hparse", "fn": "SchemaTotal", "cases": stream_cases(NS_PREFIX, NS_ALPHA, 3, 2, 4, 3, {"invalid": 1}), "panic_prop": "C01"},
         ],
         "covers": ["C01.error", "C01.eof", "C01.token", "C01.parsed", "C01.syntax-error"],
-        "bounds": {"quick": "lexer: every byte string of length <= 5 after the cursor (all 256 byte values, valid UTF-8 or not), one ReadToken step; loops unwound n+3 times with unwinding assertions",
-                   "thorough": "lexer: every byte string of length <= 8 after the cursor"},
+        "bounds": {"quick": "lexer: every byte string of length <= 5 after the cursor (all 256 byte values, valid UTF-8 or not), and <= 4 arbitrary bytes after each of 15 concrete openings (inside strings, escapes, block strings, comments, numbers, after CR, inside a BOM; <= 3 after two of the block-string openings); one ReadToken step; loops unwound with unwinding assertions. Parsers: see C05/C06 bounds with an unlexable token and any token limit",
+                   "thorough": "lexer: <= 7 bytes after the cursor; <= 5 after the cheap openings, <= 4 after every block-string opening"},
         "outside": "inputs longer than the bound after the cursor; wall-clock and stack size on large inputs",
         "assumptions": LEX_ASSUME,
     },
     "C05": {
-        "units": [{"pkg": "verifh/hparse", "fn": "QueryRef", "cases": stream_cases(NQ_PREFIX, NQ_ALPHA, 4, 3, 6, 5), "panic_prop": "C05"}],
+        "units": [{"pkg": "verifh/hparse", "fn": "QueryRef", "cases": stream_cases(NQ_PREFIX, NQ_ALPHA, 4, 3, 6, 5, nholes=NQ_HOLES), "panic_prop": "C05"}],
         "covers": ["C05.accepted", "C05.rejected"],
-        "bounds": {"quick": "every stream of <= 4 tokens over the 32-symbol executable alphabet, and 3 arbitrary tokens after each of 11 concrete openings (variable definitions, arguments, directives, list/object values, fragments, nested selections)",
-                   "thorough": "<= 6 free tokens; 5 after each opening"},
+        "bounds": {"quick": "every stream of <= 4 tokens over the 32-symbol executable alphabet; 3 arbitrary tokens after each of 11 concrete openings; 1-2 arbitrary tokens in a hole at each of 13 positions (every value position - the constant ones included - and every name position after a punctuator or keyword) of otherwise complete documents",
+                   "thorough": "<= 6 free tokens; 5 after each opening; 1-3 in each hole"},
         "outside": "longer streams; that rendered text lexes back to the intended tokens is checked natively at replay only",
         "assumptions": PARSE_ASSUME + ["reference recogniser hparse.RefQuery written from section 2 of the specification; validated natively against parser/query_test.yml at setup"],
     },
     "C06": {
-        "units": [{"pkg": "verifh/hparse", "fn": "SchemaRef", "cases": stream_cases(NS_PREFIX, NS_ALPHA, 3, 3, 5, 4), "panic_prop": "C06"}],
+        "units": [{"pkg": "verifh/hparse", "fn": "SchemaRef", "cases": stream_cases(NS_PREFIX, NS_ALPHA, 3, 3, 5, 4, nholes=NS_HOLES), "panic_prop": "C06"}],
         "covers": ["C06.accepted", "C06.rejected"],
-        "bounds": {"quick": "every stream of <= 3 tokens over the 41-symbol type-system alphabet, and 3 arbitrary tokens after each of 19 concrete openings",
-                   "thorough": "<= 5 free tokens; 4 after each opening"},
+        "bounds": {"quick": "every stream of <= 3 tokens over the 41-symbol type-system alphabet; 3 arbitrary tokens after each of 19 concrete openings; 1-2 arbitrary tokens in a hole at each of the 25 positions of the type-system grammar that hold a constant value (every directive-argument value and default value, definitions and extensions) of otherwise complete documents",
+                   "thorough": "<= 5 free tokens; 4 after each opening; 1-3 in each hole"},
         "outside": "longer streams",
         "assumptions": PARSE_ASSUME + ["reference recogniser hparse.RefSchema written from section 3; validated natively against parser/schema_test.yml and the prelude at setup"],
     },
     "C16": {
-        "units": [{"pkg": "verifh/hparse", "fn": "QueryLimit", "cases": stream_cases(NQ_PREFIX, NQ_ALPHA, 3, 2, 5, 4), "panic_prop": "C16"},
-                  {"pkg": "verifh/hparse", "fn": "SchemaLimit", "cases": stream_cases(NS_PREFIX, NS_ALPHA, 3, 2, 4, 3), "panic_prop": "C16"}],
+        "units": [{"pkg": "verifh/hparse", "fn": "QueryLimit", "cases": stream_cases(NQ_PREFIX, NQ_ALPHA, 3, 2, 5, 4, nholes=NQ_HOLES), "panic_prop": "C16"},
+                  {"pkg": "verifh/hparse", "fn": "SchemaLimit", "cases": stream_cases(NS_PREFIX, NS_ALPHA, 3, 2, 4, 3, nholes=NS_HOLES), "panic_prop": "C16"}],
         "covers": ["C16.both-parse", "C16.over-limit"],
         "bounds": {"quick": "streams as for C05/C06 with <= 3 free tokens (2 after an opening), every limit 0..tokens+2, all four limited entry points reached through ParseQueryWithTokenLimit / ParseSchemaWithLimit",
                    "thorough": "<= 5 / 4 free tokens"},
@@ -145,7 +165,7 @@ CHECKS = {
         "units": [{"pkg": "verifh/hval", "fn": "ValidateRef", "cases": validate_cases, "panic_prop": "C02"}],
         "covers": ["C08.accepted", "C08.rejected", "C08.accepted-optional-arg", "C08.accepted-required-arg", "C08.accepted-variable-in-optional-arg"],
         "case_timeout": {"quick": 400, "thorough": 1200},
-        "bounds": {"quick": "10 document shapes (one argument with every kind of literal incl. 32/64-bit integer boundaries, list/object/empty-object literals; a variable definition of every type shape with/without default used bare, in a list, in an object; fragments/spreads/type conditions; field merging below an interface; same-named fields with different arguments; directives; operation kinds/names/subscriptions; introspection depth 5; nested selections) with all names symbolic, against the full default rule set; verdict compared with the reference validator",
+        "bounds": {"quick": "12 document shapes (one argument with every kind of literal incl. 32/64-bit integer boundaries, list/object/empty-object literals; a variable definition of every type shape with/without default used bare, in a list, in an object; fragments/spreads/type conditions; field merging below an interface; same-named fields with different arguments; directives; operation kinds/names/subscriptions; introspection depth 5; nested selections) with all names symbolic, against the full default rule set; verdict compared with the reference validator",
                    "thorough": "the same plus the heaviest fragment pieces (two fragments that both spread, with an inline fragment)"},
         "outside": "documents larger than the shapes; interactions needing more than 2 fragments or depth > 5; schemas other than the kitchen-sink one; per-rule verdicts (only the overall verdict is compared)",
         "assumptions": VALIDATE_ASSUME,
@@ -181,7 +201,7 @@ CHECKS = {
     },
     "C20": {
         "units": [
-            {"pkg": "verifh/hlex", "fn": "StepTotal", "cases": lex_cases(4, 6), "panic_prop": None},
+            {"pkg": "verifh/hlex", "fn": "StepTotal", "cases": lex_cases(4, 6, openings=False), "panic_prop": None},
             {"pkg": "verifh/hparse", "fn": "QueryTotal", "cases": stream_cases(NQ_PREFIX, NQ_ALPHA, 3, 2, 4, 3, {"invalid": 1}), "panic_prop": None},
             {"pkg": "verifh/hparse", "fn": "SchemaTotal", "cases": stream_cases(NS_PREFIX, NS_ALPHA, 3, 2, 4, 3, {"invalid": 1}), "panic_prop": None},
             {"pkg": "verifh/hval", "fn": "ValidateRef", "cases": validate_cases, "panic_prop": None},
@@ -196,22 +216,22 @@ CHECKS = {
     },
     "C03": {
         "units": [
-            {"pkg": "verifh/hlex", "fn": "StepRef", "cases": lex_cases(5, 7), "panic_prop": "C03"},
+            {"pkg": "verifh/hlex", "fn": "StepRef", "cases": lex_cases(5, 6), "panic_prop": "C03"},
         ],
-        "covers": ["C03.error", "C03.name", "C03.number", "C03.comment", "C03.eof", "C03.string"],
-        "bounds": {"quick": "every well-formed UTF-8 string of <= 5 bytes after the cursor, one token, against the reference lexer (kind, extent in characters, value, failure)",
-                   "thorough": "<= 7 bytes"},
+        "covers": ["C03.error", "C03.name", "C03.number", "C03.comment", "C03.eof", "C03.string", "C03.blockstring"],
+        "bounds": {"quick": "every well-formed UTF-8 string of <= 5 bytes after the cursor, and <= 4 bytes after each of 15 concrete openings (<= 3 after two of the block-string ones), one token, against the reference lexer (kind, extent in characters, value, failure)",
+                   "thorough": "<= 6 bytes plain (7 does not finish in 1000 s); <= 5 after the cheap openings, <= 4 after every block-string opening"},
         "outside": "longer inputs; ill-formed UTF-8 (covered for totality only, C01)",
         "assumptions": LEX_ASSUME + ["reference lexer hlex.RefNext written from section 2.1 of the October 2021 text; validated natively against lexer_test.yml at setup"],
     },
     "C04": {
         "units": [
-            {"pkg": "verifh/hlex", "fn": "StepRef", "cases": lex_cases(5, 7), "panic_prop": None},
-            {"pkg": "verifh/hlex", "fn": "StepTotal", "cases": lex_cases(4, 6), "panic_prop": None},
+            {"pkg": "verifh/hlex", "fn": "StepRef", "cases": lex_cases(5, 6), "panic_prop": None},
+            {"pkg": "verifh/hlex", "fn": "StepTotal", "cases": lex_cases(4, 6, openings=False), "panic_prop": None},
         ],
         "covers": [],
-        "bounds": {"quick": "token positions: <= 5 bytes after the cursor, relative to arbitrary resting counters",
-                   "thorough": "<= 7 bytes"},
+        "bounds": {"quick": "token positions and the lexer's resting counters: <= 5 bytes after the cursor and <= 4 after each concrete opening, relative to the resting counters",
+                   "thorough": "<= 6 bytes plain; <= 5 / 4 after openings"},
         "outside": "that a node's position is its first token; inputs beyond the bounds",
         "assumptions": LEX_ASSUME,
     },
